@@ -15,7 +15,12 @@ package brutal
 //     strictly after now, and the bucket holds a full datagram at that time; if quic-go then asks
 //     HasPacingBudget at or after the announced time with no send / ack / MTU call in between, the
 //     answer must be true.
-// The byte envelope is NOT asserted here: quic-go sends ACK-only and probe packets outside pacing.
+//   * envelope over the GATE-RELEASED packets only: a packet counts when the monitor call right
+//     before its OnPacketSent(t, ...) chain was HasPacingBudget(t) == true at the same instant t (that is
+//     SendMode == SendAny followed by the send). ACK-only packets sent while pacing / window limited and
+//     PTO probes never ask the gate and are left out; an MTU probe counts as one datagram. Ack-eliciting
+//     or not makes no difference: the statement speaks of "the bytes released by pacing". The upload
+//     cases make the server mostly a receiver, so nearly everything it releases is ACK-only.
 //
 // Time origin: inside a synctest bubble quic-go's monotime.Now() is NEGATIVE (its package-level
 // reference instant is taken from the real clock at init, the bubble clock starts on 2000-01-01).
@@ -92,6 +97,7 @@ type vfC11QCase struct {
 	PathMTU    int    `json:"path_mtu"`
 	Bytes      int64  `json:"transfer_bytes"`
 	Upstream   bool   `json:"client_sends_too"` // makes the server emit ACK-only packets
+	Upload     int64  `json:"client_bulk_upload_bytes"` // > 0: the server mostly RECEIVES; nearly all it sends is ACK-only
 }
 
 // ---------------------------------------------------------------------------------------------
@@ -176,6 +182,10 @@ type vfC11Mon struct {
 	falseE int64
 	annT   int64 // latest announced time, 0 = none
 	annE   int64
+	gateT  int64 // instant of the latest HasPacingBudget(t)==true not yet used by a send, 0 = none
+	env    vfC11Envelope
+
+	Released, ReleasedAckOnly int64
 	failed bool
 	tail   [32]string
 	tailN  int
@@ -254,8 +264,10 @@ func (m *vfC11Mon) HasPacingBudget(now monotime.Time) bool {
 		m.PacingLimited++
 		m.falseT, m.falseE = int64(now), m.epoch
 		m.note("HasPacingBudget(%d)=false", now)
+		m.gateT = 0
 	} else {
 		m.falseT = 0
+		m.gateT = int64(now)
 	}
 	return r
 }
@@ -299,6 +311,16 @@ func (m *vfC11Mon) OnPacketSent(sentTime monotime.Time, inflight congestion.Byte
 	sentTime = monotime.Time(int64(sentTime) + vfC11QShift)
 	m.note("OnPacketSent(%d, inflight %d, pn %d, %d B, ackEliciting %v)", sentTime, inflight, pn, bytes, retx)
 	m.BrutalSender.OnPacketSent(sentTime, inflight, pn, bytes, retx)
+	if m.gateT != 0 && m.gateT == int64(sentTime) && !m.failed {
+		m.Released++
+		if !retx {
+			m.ReleasedAckOnly++
+		}
+		if msg := m.env.send(int64(sentTime), min(int64(bytes), m.mds)); msg != "" {
+			m.viol("brutal:envelope-exceeded", "rate %d B/s, packets that went through the open pacing gate (%d of %d not ack-eliciting): %s", m.c.Bps, m.ReleasedAckOnly, m.Released, msg)
+		}
+	}
+	m.gateT = 0
 }
 
 func (m *vfC11Mon) OnCongestionEventEx(prior congestion.ByteCount, t monotime.Time, acked []congestion.AckedPacketInfo, lost []congestion.LostPacketInfo) {
@@ -341,6 +363,13 @@ func (m *vfC11Mon) SetMaxDatagramSize(size congestion.ByteCount) {
 
 var _ congestion.CongestionControlEx = &vfC11Mon{}
 
+func vfC11B2I(b bool) int {
+	if b {
+		return 1
+	}
+	return 0
+}
+
 // ---------------------------------------------------------------------------------------------
 
 type vfC11QResult struct {
@@ -353,6 +382,10 @@ type vfC11QResult struct {
 	Events            int64      `json:"ack_loss_events"`
 	Sent              int64      `json:"packets_reported_sent"`
 	AckOnly           int64      `json:"ack_only_packets"`
+	Released          int64      `json:"packets_released_through_open_gate"`
+	ReleasedAckOnly   int64      `json:"of_which_not_ack_eliciting"`
+	Uploaded          int64      `json:"bytes_uploaded_by_client"`
+	UploadS           float64    `json:"upload_virtual_seconds"`
 	PacingLimited     int64      `json:"pacing_limited"`
 	Announced         int64      `json:"announcements_checked"`
 	AnnouncedHonoured int64      `json:"wakeups_at_announced_time_checked"`
@@ -403,7 +436,7 @@ func vfC11RunQUIC(t *testing.T, k *vfKit, c vfC11QCase) {
 		ctx, cancel := context.WithTimeout(context.Background(), 300*time.Second) // virtual
 		defer cancel()
 		var wg sync.WaitGroup
-		var received, doneAt, startAt atomic.Int64
+		var received, doneAt, startAt, upDone, uploaded, upEnd atomic.Int64
 		var cliConn atomic.Pointer[quic.Conn]
 		var cliErr atomic.Value
 		wg.Add(1)
@@ -429,6 +462,24 @@ func vfC11RunQUIC(t *testing.T, k *vfKit, c vfC11QCase) {
 							return
 						}
 						time.Sleep(4 * time.Millisecond)
+					}
+					_ = st.Close()
+				}()
+			}
+			if c.Upload > 0 {
+				wg.Add(1)
+				go func() {
+					defer wg.Done()
+					defer upDone.Store(1)
+					st, err := conn.OpenUniStreamSync(ctx)
+					if err != nil {
+						return
+					}
+					buf := make([]byte, 32<<10)
+					for sent := int64(0); sent < c.Upload; sent += int64(len(buf)) {
+						if _, err := st.Write(buf); err != nil {
+							return
+						}
 					}
 					_ = st.Close()
 				}()
@@ -460,10 +511,10 @@ func vfC11RunQUIC(t *testing.T, k *vfKit, c vfC11QCase) {
 			}
 			// exactly what congestion.UseBrutal does, with the monitor around the sender
 			mon = &vfC11Mon{BrutalSender: NewBrutalSender(c.Bps, c.NoComp), k: k, c: c, mds: vfC11DefaultMDS,
-				model: vfC11NewAckModel(c.NoComp), MinFactor: 1}
+				model: vfC11NewAckModel(c.NoComp), MinFactor: 1, env: vfC11NewEnvelope(c.Bps, vfC11MaxMTU)}
 			sconn.SetCongestionControl(mon)
 			startAt.Store(time.Now().UnixNano())
-			if c.Upstream {
+			for i := 0; i < vfC11B2I(c.Upstream)+vfC11B2I(c.Upload > 0); i++ {
 				wg.Add(1)
 				go func() {
 					defer wg.Done()
@@ -471,7 +522,9 @@ func vfC11RunQUIC(t *testing.T, k *vfKit, c vfC11QCase) {
 					if err != nil {
 						return
 					}
-					_, _ = io.Copy(io.Discard, st)
+					n, _ := io.Copy(io.Discard, st)
+					uploaded.Add(n)
+					upEnd.Store(time.Now().UnixNano())
 				}()
 			}
 			st, err := sconn.OpenUniStreamSync(ctx)
@@ -489,7 +542,7 @@ func vfC11RunQUIC(t *testing.T, k *vfKit, c vfC11QCase) {
 				sent += n
 			}
 			_ = st.Close()
-			for doneAt.Load() == 0 && ctx.Err() == nil {
+			for (doneAt.Load() == 0 || (c.Upload > 0 && (upDone.Load() == 0 || uploaded.Load() < c.Upload))) && ctx.Err() == nil {
 				time.Sleep(10 * time.Millisecond)
 			}
 			time.Sleep(200 * time.Millisecond) // let the last ACKs arrive
@@ -509,6 +562,10 @@ func vfC11RunQUIC(t *testing.T, k *vfKit, c vfC11QCase) {
 			res.Err = e
 		}
 		res.Received = received.Load()
+		res.Uploaded = uploaded.Load()
+		if s, e := startAt.Load(), upEnd.Load(); s != 0 && e != 0 {
+			res.UploadS = float64(e-s) / 1e9
+		}
 		if s := startAt.Load(); s != 0 {
 			res.VirtualS = float64(doneAt.Load()-s) / 1e9
 		}
@@ -523,12 +580,15 @@ func vfC11RunQUIC(t *testing.T, k *vfKit, c vfC11QCase) {
 		res.Calls, res.Events, res.Sent, res.AckOnly = mon.Calls, mon.Events, mon.Sent, mon.AckOnly
 		res.PacingLimited, res.Announced, res.AnnouncedHonoured = mon.PacingLimited, mon.Announced, mon.AnnouncedHonoured
 		res.MTUEvents, res.FinalMDS, res.MinFactor = mon.MTUEvents, mon.mds, mon.MinFactor
+		res.Released, res.ReleasedAckOnly = mon.Released, mon.ReleasedAckOnly
 		mon.mu.Unlock()
 		k.Count("ev_real_quic_monitored_calls", res.Calls)
 		k.Count("real_quic_pacing_limited", res.PacingLimited)
 		k.Count("ev_real_quic_announcements_checked", res.Announced)
 		k.Count("ev_real_quic_wakeups_checked", res.AnnouncedHonoured)
 		k.Count("real_quic_ack_only_packets", res.AckOnly)
+		k.Count("ev_real_quic_gate_released_packets", res.Released)
+		k.Count("real_quic_gate_released_not_ack_eliciting", res.ReleasedAckOnly)
 		k.Count("real_quic_datagram_size_changes", res.MTUEvents)
 		if res.MinFactor < 1 {
 			k.Count("real_quic_runs_with_factor_below_1", 1)
@@ -537,13 +597,13 @@ func vfC11RunQUIC(t *testing.T, k *vfKit, c vfC11QCase) {
 	k.Count("real_quic_bytes_received", res.Received)
 	k.Count("real_quic_queue_drops", res.QueueDrops)
 	k.Count("real_quic_loss_drops", res.LossDrops)
-	if res.Err != "" || res.Received != c.Bytes {
+	if res.Err != "" || res.Received != c.Bytes || res.Uploaded < c.Upload {
 		if mon == nil || !mon.failed {
 			k.Inconclusive(fmt.Sprintf("%s: transfer incomplete (%d of %d bytes, err=%q)", c.CaseID, res.Received, c.Bytes, res.Err))
 		}
 	} else {
 		k.Count("real_quic_transfers_completed", 1)
-		if res.Announced >= 20 && res.Events >= 50 {
+		if (res.Announced >= 20 && res.Events >= 50) || (c.Upload > 0 && res.ReleasedAckOnly >= 200) {
 			k.Nontrivial(fmt.Sprintf("%+v", c))
 		}
 	}
@@ -561,6 +621,18 @@ func TestVerifC11RealQUIC(t *testing.T) {
 		ratio float64 // capacity / brutal rate
 	}{{"roomy", 2.0}, {"tight", 0.92}, {"starved", 0.6}}
 	variants := k.N(1, 6)
+	// the server mostly receives: a slow Brutal sender whose output is almost only ACK-only packets
+	for v := 0; v < variants; v++ {
+		for ui, bps := range []uint64{65_536, 100_000} {
+			id := fmt.Sprintf("quic-upload-%d-v%d", bps, v)
+			if rc := k.ReplayCase(); rc != "" && rc != id {
+				continue
+			}
+			c := vfC11QCase{CaseID: id, Bps: bps, CapBps: 10_000_000, OneWayMs: []int64{1, 2, 1}[(ui+v)%3],
+				QueueBytes: 500_000, Bytes: 2 << 10, Upload: int64(8+2*((ui+v)%3)) << 20, NoComp: v%2 == 1}
+			vfC11RunQUIC(t, k, c)
+		}
+	}
 	for v := 0; v < variants; v++ {
 		for ri, bps := range rates {
 			for li, l := range links {
